@@ -15,6 +15,84 @@ import os
 import sys
 
 
+def regex_samples(pattern, limit=12, maxlen=10):
+    """a few strings matched by a (simple) token regex: literals, classes, alternations, minimal repeats - enough to spell operators and delimiters"""
+    try:
+        import re._parser as sp
+    except ImportError:
+        import sre_parse as sp
+    try:
+        tree = sp.parse(pattern)
+    except Exception:
+        return []
+
+    def gen(items):
+        outs = ['']
+        for op, av in items:
+            name = str(op)
+            if name == 'LITERAL':
+                alts = [chr(av)]
+            elif name == 'IN':
+                alts = []
+                for o2, a2 in av:
+                    if str(o2) == 'LITERAL':
+                        alts.append(chr(a2))
+                    elif str(o2) == 'RANGE':
+                        alts.append(chr(a2[0]))
+                    elif str(o2) == 'NEGATE':
+                        alts = ['x']
+                        break
+                    elif str(o2) == 'CATEGORY':
+                        alts.append({'CATEGORY_DIGIT': '1', 'CATEGORY_WORD': 'a', 'CATEGORY_SPACE': ' '}.get(str(a2), 'a'))
+                alts = alts[:6] or ['a']
+            elif name in ('MAX_REPEAT', 'MIN_REPEAT'):
+                lo, hi, sub = av
+                alts = [''] if lo == 0 else []
+                alts += [x * max(lo, 1) for x in gen(list(sub))[:4]]
+            elif name == 'SUBPATTERN':
+                alts = gen(list(av[-1]))[:6]
+            elif name == 'BRANCH':
+                alts = []
+                for b in av[1]:
+                    alts += gen(list(b))[:3]
+            elif name == 'ANY':
+                alts = ['a']
+            elif name == 'CATEGORY':
+                alts = ['1']
+            elif name in ('AT', 'ASSERT', 'ASSERT_NOT'):
+                alts = ['']
+            elif name == 'NOT_LITERAL':
+                alts = ['a']
+            else:
+                alts = ['']
+            outs = [o + a for o in outs for a in alts][:limit * 4]
+        return outs
+    try:
+        return [x for x in dict.fromkeys(gen(list(tree))) if 0 < len(x) <= maxlen][:limit]
+    except Exception:
+        return []
+
+
+def write_dictionary(path):
+    """libFuzzer dictionary taken from the tree under test: what its lexer's token rules spell, its reserved words, the names in its function table"""
+    words = []
+    try:
+        from smartquery import lexer, functions
+        for k, v in vars(lexer).items():
+            if k.startswith('t_') and k not in ('t_ignore', 't_error'):
+                pat = v if isinstance(v, str) else (getattr(v, '__doc__', None) or '')
+                words += regex_samples(pat.strip())
+            elif isinstance(v, dict) and v and all(isinstance(a, str) and isinstance(b, str) for a, b in v.items()):
+                words += list(v)
+        words += list(functions.FUNCTIONS)
+    except Exception:
+        pass
+    with open(path, 'w') as f:
+        for w in dict.fromkeys(words):
+            f.write('"%s"\n' % ''.join(c if (32 < ord(c) < 127 and c not in '"\\') else '\\x%02x' % b for c in w for b in c.encode('utf-8', 'surrogatepass')[:1] if len(c.encode('utf-8', 'surrogatepass')) == 1))
+    return len(words)
+
+
 def main():
     deps, sandbox_dir, work, seconds, seed = sys.argv[1:6]
     mode = sys.argv[6] if len(sys.argv) > 6 else 'c16'
@@ -192,7 +270,8 @@ def main():
     if mode == 'c18':
         target = target_c18
     os.makedirs(os.path.join(work, 'artifacts'), exist_ok=True)
-    atheris.Setup([sys.argv[0], os.path.join(work, 'corpus'), '-max_total_time=%s' % seconds, '-seed=%s' % seed, '-max_len=400', '-timeout=20', '-rss_limit_mb=2500',
+    stats['dictionary_words'] = write_dictionary(os.path.join(work, 'dict.txt'))
+    atheris.Setup([sys.argv[0], os.path.join(work, 'corpus'), '-dict=%s' % os.path.join(work, 'dict.txt'), '-max_total_time=%s' % seconds, '-seed=%s' % seed, '-max_len=400', '-timeout=20', '-rss_limit_mb=2500',
                    '-artifact_prefix=%s/' % os.path.join(work, 'artifacts'), '-print_final_stats=1', '-verbosity=0'], target)
     atheris.Fuzz()
 
